@@ -174,7 +174,7 @@ pub fn run(ctx: &Ctx) {
             init_docs: &alphabet,
             events: &events,
             depth,
-            state_cap: ctx.tier.pick(400_000, 3_000_000),
+            state_cap: ctx.tier.pick(400_000, 1_500_000),
             audit_cap: ctx.tier.pick(2_000, 20_000),
             judge_init: &judge_i,
             judge: &judge_t,
